@@ -10,8 +10,11 @@ from .runner import Result, scenario
 from .sim import DaemonDied, DaemonExited, Hang, Sim, crash_key
 
 
-def gen_script(rng, max_msg):
-    """-> (conns: list of transport, steps: list of dict(c=, unit=bytes | reply=k))"""
+def gen_script(rng, max_msg, stalls=False):
+    """-> (conns: list of transport, steps: list of dict(c=, unit=bytes | reply=k | eof | stall=budget))
+    stalls: a connection stops reading for a few steps (its output is parked inside the daemon); when it reads again it also sends
+    a unit that is not answered (zero length prefix, unsolicited pong) - "writable again" and "readable" may then arrive as one
+    readiness event or as two"""
     nconn = rng.randint(2, 4)
     conns = [rng.choice(["raw", "raw", "uds", "ws"]) for _ in range(nconn)]
     steps = []
@@ -44,7 +47,21 @@ def gen_script(rng, max_msg):
             pr["timeout"] = 1.5
         req(owner, "add", pr)
     forwards = 0
+    stalled = None
+
+    def unstall():
+        c2 = stalled[0]
+        quiet = wire.ws_frame(10, b"", mask=b"\x0a\x0b\x0c\x0d") if conns[c2] == "ws" else b"\x00\x00\x00\x00"
+        steps.append(dict(c=c2, unit=quiet, unstall=True))
+
     for _ in range(rng.randint(10, 30)):
+        if stalls:
+            if stalled is None and rng.random() < 0.12:
+                stalled = (rng.randrange(nconn), len(steps) + rng.randint(2, 6))
+                steps.append(dict(c=stalled[0], stall=rng.choice([0, 0, 1, 30])))
+            elif stalled is not None and len(steps) >= stalled[1]:
+                unstall()
+                stalled = None
         c = rng.randrange(nconn)
         r = rng.random()
         if r < 0.15:
@@ -100,6 +117,8 @@ def gen_script(rng, max_msg):
                 else:
                     req(c, rng.choice(["info", "get"]), None)
             steps.append(dict(c=c, eof=True))
+    if stalled is not None:
+        unstall()
     # a unit that is longer than the read buffer takes effect (ends the connection) as soon as its length field is
     # complete, not when its last byte arrives: only a shorter prefix of it may be delivered early
     for st in steps:
@@ -214,6 +233,16 @@ def execute(binary, conns, steps, policy, rng, timeout=60):
                 sim.settle(**policy.get("batch", {}))
                 pump()
                 continue
+            if "stall" in st:
+                sim.settle()
+                sim.wpol(fds[c], budget=st["stall"])
+                continue
+            if st.get("unstall"):
+                sim.wpol(fds[c], budget=-1, cap=-1)
+                if policy.get("group_inout") and rng.random() < policy["group_inout"]:
+                    out["grouped"] = out.get("grouped", 0) + 1      # readable + writable of this connection: one event
+                else:
+                    sim.settle(**policy.get("batch", {}))
             if "reply" in st:
                 pump()
                 if replied[c] >= len(fwd[c]):
@@ -294,6 +323,8 @@ POLICIES = [
     dict(name="whole+spurious+preaccept", chunks="whole", spurious=0.3, fin_coalesce=1.0, preaccept=1.0),
     dict(name="bytes+scribble-brace", chunks="bytes", scribble=2, poll_between=0.2),
     dict(name="k2+coalesce+scribble-zero", chunks=2, coalesce=0.8, scribble=1),
+    dict(name="whole+in-out-grouped", chunks="whole", group_inout=1.0),
+    dict(name="k3+in-out-grouped", chunks=3, group_inout=0.8, coalesce=0.3),
 ]
 
 
@@ -304,7 +335,7 @@ def segdiff(case, res):
     binary = build.build(config=cfgname, lane=case.get("lane", "asan"))
     cfg = build.cfg_of(cfgname)
     rng = random.Random(case["seed"])
-    conns, steps = gen_script(rng, int(cfg["CONFIG_MAX_MESSAGE_SIZE"]))
+    conns, steps = gen_script(rng, int(cfg["CONFIG_MAX_MESSAGE_SIZE"]), stalls=True)
     res.sample = {"conns": conns, "steps": [dict(c=s["c"], unit=s["unit"][:60].decode("latin1")) if "unit" in s else {k: v for k, v in s.items() if not k.startswith("_")} for s in steps[:12]]}
     try:
         ref = execute(binary, conns, steps, dict(name="reference", chunks="whole"), random.Random(1))
@@ -326,6 +357,7 @@ def segdiff(case, res):
             res.inconclusive = "hang in variant %s: %s" % (pol["name"], e)
             return
         res.stats["variant_runs"] += 1
+        res.stats["readable_and_writable_in_one_event"] += var.get("grouped", 0)
         res.sigs.add(("variant", pol["name"], min(nmsg // 10, 6), tuple(sorted(set(conns)))))
         if var["crash"]:
             res.viol.append(("crash/" + str(var["crash"]), "policy %s\n%s" % (pol["name"], var["detail"])))
